@@ -209,4 +209,20 @@ theorem C08_height_le_distance (d : Datum ℝ) (ha : 0 < d.a) (hes0 : 0 ≤ d.es
 /-- non-vacuity: WGS84 (`a = 6378137`, `es = 0.00669438`) and the point (a, 0, 0) of its surface -/
 example : (1 - (0.00669438 : ℝ)) * ((6378137 : ℝ) ^ 2 + 0 ^ 2) + 0 ^ 2 = (6378137 : ℝ) ^ 2 * (1 - 0.00669438) := by ring
 
+/-- **height_loss_bound** (product form with both factors explicit): the tangential part of the offset `h'·n_b` of
+`C08_height_loss_exact`, measured against the source normal `n_a`, is at most `|h'|·√(Δφ² + Δλ²)` long, `(Δφ, Δλ)` the change of the
+geodetic coordinates across the forward shift (squared). -/
+theorem C08_height_loss_bound (h' lon lat lon' lat' : ℝ) :
+    let na := normalAt lon lat
+    let nb := normalAt lon' lat'
+    let dot := na.1 * nb.1 + na.2.1 * nb.2.1 + na.2.2 * nb.2.2
+    (h' * nb.1 - h' * dot * na.1) ^ 2 + (h' * nb.2.1 - h' * dot * na.2.1) ^ 2 + (h' * nb.2.2 - h' * dot * na.2.2) ^ 2
+      ≤ h' ^ 2 * ((lat' - lat) ^ 2 + (lon' - lon) ^ 2) := by
+  intro na nb dot
+  have h1 := C08_tangent_part_sq h' na.1 na.2.1 na.2.2 nb.1 nb.2.1 nb.2.2 (normalAt_unit lon lat) (normalAt_unit lon' lat')
+  have h2 := C08_tilt_le lon lat lon' lat'
+  simp only at h1 h2
+  rw [h1]
+  exact mul_le_mul_of_nonneg_left h2 (sq_nonneg h')
+
 end GeomV.C08
